@@ -102,6 +102,7 @@ class Facts:
         self.raises = self.scan.raises
         # validator calls and numpy validating calls
         self.vcalls: List[Tuple[str, FrozenSet[str], List[str]]] = []
+        self.vcall_order: Dict[Tuple[str, FrozenSet[str]], int] = {}
         seen = set()
         for cs in self.scan.calls:
             r = resolve_callee(prog, fi, cs.call)
@@ -124,6 +125,7 @@ class Facts:
             seen.add((key, conds))
             exits = sorted({e.key() for e in self.scan.exits if e.order < cs.order and G._compatible(e.conds, conds)})
             self.vcalls.append((key, conds, exits))
+            self.vcall_order[(key, conds)] = cs.order
         self._delegated: Optional[List[G.Raise]] = None
         self.prog = prog
 
@@ -209,6 +211,25 @@ def check(prog: Program, res: Result, tier: str) -> None:
             facts[short] = Facts(prog, prog.functions[q])
         return facts[short]
 
+    def neg(a: str) -> str:
+        return a[1:] if a.startswith("!") else "!" + a
+
+    def subsumed(conds, want, f, order) -> bool:
+        """conds <= want, up to atoms that earlier guards of the same function already force: after `if A and B: raise`, a site that
+        requires A may also require not-B without covering fewer cases."""
+        if conds <= want:
+            return True
+        extra = conds - want
+        for x in extra:
+            ok = False
+            for r in f.raises:
+                if r.order < order and neg(x) in r.conds and (r.conds - {neg(x)}) <= (want | (conds - {x})):
+                    ok = True
+                    break
+            if not ok:
+                return False
+        return True
+
     def relevant_extra(exits, allowed, want):
         """Exits that precede the guard now, were not reviewed, and can actually take a case away from it: an exit whose conditions
         contradict the reviewed guard's own conditions cannot, nor can one that only fires in a sub-case of a reviewed exit."""
@@ -241,7 +262,7 @@ def check(prog: Program, res: Result, tier: str) -> None:
             allowed = set(e.get("exits", []))
             best = None
             for r in f.raises:
-                if r.conds <= want:
+                if subsumed(r.conds, want, f, r.order):
                     extra = relevant_extra(r.exits_before, allowed, want)
                     if not extra:
                         best = ("OK", r, "")
@@ -285,7 +306,7 @@ def check(prog: Program, res: Result, tier: str) -> None:
             allowed = set(e.get("exits", []))
             verdict = None
             for key, conds, exits in f.vcalls:
-                if key == e["key"] and conds <= want:
+                if key == e["key"] and subsumed(conds, want, f, f.vcall_order.get((key, conds), 0)):
                     extra = relevant_extra(exits, allowed, want)
                     if not extra:
                         verdict = ("OK", "")
